@@ -46,6 +46,10 @@ type Cand struct {
 	// back-end (version skew between replicas). Acceptance, refusal and
 	// routability are demanded as for a first registration.
 	SecondProvider bool `json:"second_provider,omitempty"`
+	// Annotated: the candidate rule is delivered through the service
+	// configuration (Rule.Via == "config") for a method that ALSO carries a
+	// valid google.api.http annotation of its own.
+	Annotated bool `json:"config_rule_on_annotated_method,omitempty"`
 }
 
 type class int
@@ -96,6 +100,14 @@ func candRuleSet(c *Cand, id int) (*RuleSet, int) {
 		oth.Rules = []RuleSpec{c.Rule}
 	} else {
 		tgt.Rules = []RuleSpec{c.Rule}
+	}
+	if c.Annotated && c.Rule.Via == "config" {
+		own := RuleSpec{Verb: "GET", Tmpl: fmt.Sprintf("/ann%d/own", id), Via: "annotation"}
+		if c.TgtRule != nil {
+			oth.Rules = append([]RuleSpec{own}, oth.Rules...)
+		} else {
+			tgt.Rules = append([]RuleSpec{own}, tgt.Rules...)
+		}
 	}
 	rs.Methods = append(rs.Methods, tgt, oth)
 	return rs, cs
@@ -277,7 +289,30 @@ func via2(c *Cand) string {
 	if c.SecondProvider {
 		return ":second-provider"
 	}
+	if c.Rule.Via == "config" {
+		if c.Annotated {
+			return ":service-config-rule-on-annotated-method"
+		}
+		return ":service-config-rule"
+	}
 	return ""
+}
+
+// deliver rotates how the candidate rule reaches the mux: the method's
+// annotation, a ServiceConfigOption rule for a method without annotation, a
+// ServiceConfigOption rule for a method that has a valid annotation too.
+var deliverSeq int
+
+func deliver(c *Cand) *Cand {
+	deliverSeq++
+	switch deliverSeq % 4 {
+	case 1:
+		c.Rule.Via = "config"
+	case 3:
+		c.Rule.Via = "config"
+		c.Annotated = true
+	}
+	return c
 }
 
 func classify(c *Cand, rs *RuleSet, cs int) (cl class, reason string, t *tmplref.Template) {
@@ -765,6 +800,9 @@ func RunC16(r *mon.Run) {
 		}
 		verb := pick(rng, ruleVerbs)
 		execCand(r, &Cand{Rule: RuleSpec{Verb: verb, Tmpl: tmpl, Via: "annotation"}, Base: baseFor(), Origin: "grammar"}, rng)
+		if i%3 == 0 {
+			execCand(r, deliver(&Cand{Rule: RuleSpec{Verb: verb, Tmpl: tmpl, Via: "annotation"}, Base: baseFor(), Origin: "grammar"}), rng)
+		}
 		if i%5 == 0 {
 			execCand(r, &Cand{Rule: RuleSpec{Verb: verb, Tmpl: tmpl, Via: "annotation"}, Base: baseFor(), Origin: "grammar", SecondProvider: true}, rng)
 			if ms := mutants(tmpl, rng, false); len(ms) > 0 && len(tmpl) <= 34 {
@@ -776,14 +814,14 @@ func RunC16(r *mon.Run) {
 			continue
 		}
 		for _, m := range mutants(tmpl, rng, i < r.Pick(24, 120)) {
-			execCand(r, &Cand{Rule: RuleSpec{Verb: verb, Tmpl: m, Via: "annotation"}, Base: baseFor(), Origin: "single-edit"}, rng)
+			execCand(r, deliver(&Cand{Rule: RuleSpec{Verb: verb, Tmpl: m, Via: "annotation"}, Base: baseFor(), Origin: "single-edit"}), rng)
 		}
 	}
 	// (c) selector tables
 	for _, body := range bodySelectors {
 		for _, resp := range respSelectors {
 			for _, verb := range []string{"POST", "PATCH"} {
-				execCand(r, &Cand{Rule: RuleSpec{Verb: verb, Tmpl: "/sel/{a}", Body: body, Resp: resp, Via: "annotation"}, Base: baseFor(), Origin: "selectors"}, rng)
+				execCand(r, deliver(&Cand{Rule: RuleSpec{Verb: verb, Tmpl: "/sel/{a}", Body: body, Resp: resp, Via: "annotation"}, Base: baseFor(), Origin: "selectors"}), rng)
 			}
 		}
 	}
@@ -797,11 +835,11 @@ func RunC16(r *mon.Run) {
 		tr := RuleSpec{Verb: pick(rng, ruleVerbs), Tmpl: o.genTemplate(rng), Via: "annotation"}
 		switch rng.Intn(4) {
 		case 0: // exact re-declaration by another method
-			execCand(r, &Cand{Rule: RuleSpec{Verb: tr.Verb, Tmpl: tr.Tmpl, Via: "annotation"}, TgtRule: &tr, Base: base, Origin: "redeclare-explicit"}, rng)
+			execCand(r, deliver(&Cand{Rule: RuleSpec{Verb: tr.Verb, Tmpl: tr.Tmpl, Via: "annotation"}, TgtRule: &tr, Base: base, Origin: "redeclare-explicit"}), rng)
 		case 1: // same position, other variable names / other verb
 			t, _ := tmplref.Parse(tr.Tmpl)
 			alt := renameVars(t, rng)
-			execCand(r, &Cand{Rule: RuleSpec{Verb: pick(rng, ruleVerbs), Tmpl: alt, Via: "annotation"}, TgtRule: &tr, Base: base, Origin: "redeclare-renamed"}, rng)
+			execCand(r, deliver(&Cand{Rule: RuleSpec{Verb: pick(rng, ruleVerbs), Tmpl: alt, Via: "annotation"}, TgtRule: &tr, Base: base, Origin: "redeclare-renamed"}), rng)
 		case 2: // another method's implicit path
 			c16seq++
 			c := &Cand{TgtRule: &tr, Base: base, Origin: "redeclare-implicit", Pkg: fmt.Sprintf("vf.ci%d", c16seq)}
@@ -818,7 +856,7 @@ func RunC16(r *mon.Run) {
 				cand.TgtName = m.Name // same short name in another service
 				cand.Origin = "redeclare-base-same-short-name"
 			}
-			execCand(r, cand, rng)
+			execCand(r, deliver(cand), rng)
 		}
 	}
 	// (e2) template length sweep: four families, 1..40 segments, on an empty
@@ -870,7 +908,7 @@ func RunC16(r *mon.Run) {
 		default:
 			bad = RuleSpec{Verb: "POST", Tmpl: fmt.Sprintf("%s/lg%d", br.Tmpl, c16seq), Body: "no_such_body", Via: "annotation"}
 		}
-		execCand(r, &Cand{Rule: bad, TgtRule: &tr, Base: base, Origin: "late-failure"}, rng)
+		execCand(r, deliver(&Cand{Rule: bad, TgtRule: &tr, Base: base, Origin: "late-failure"}), rng)
 	}
 	// (h) a back-end whose service file imports a file the gateway links in
 	// another revision: the back-end's descriptors are the back-end's
